@@ -598,7 +598,8 @@ func copyDefs(d *definition.PipelinesDef) *definition.PipelinesDef {
 }
 
 type World struct {
-	runnerDefs []*definition.PipelinesDef
+	runnerDefs    []*definition.PipelinesDef
+	quiescentViol []Violation
 	S              *vsched.Sched
 	R              *prunner.PipelineRunner
 	Opts           WorldOpts
@@ -961,7 +962,10 @@ func (w *World) Apply(e EnvEvent) bool {
 			return false
 		}
 		w.log(Event{Kind: EvEnv, Detail: fmt.Sprintf("tick(+%v)", d)})
-		w.S.Advance(d)
+		// Timers whose deadlines lie within a fraction of a millisecond of each other (jobs accepted back to back) expire
+		// "together": all of them become runnable and the explorer chooses the order of their callbacks, as the Go
+		// runtime may. (Delays and clock steps are multiples of 1 ms, the oracles allow 1 ms.)
+		w.S.Advance(d + 200*time.Microsecond)
 		return true
 	case "adv":
 		w.log(Event{Kind: EvEnv, Detail: e.String()})
